@@ -26,6 +26,7 @@
   X(mzd_t *, mzd_mul_naive, (mzd_t *, mzd_t const *, mzd_t const *))                        \
   X(mzd_t *, mzd_addmul_naive, (mzd_t *, mzd_t const *, mzd_t const *))                     \
   X(mzd_t *, _mzd_mul_va, (mzd_t *, mzd_t const *, mzd_t const *, int))                     \
+  X(mzd_t *, _mzd_mul_naive, (mzd_t *, mzd_t const *, mzd_t const *, int))                  \
   X(mzd_t *, mzd_mul_m4rm, (mzd_t *, mzd_t const *, mzd_t const *, int))                    \
   X(mzd_t *, mzd_addmul_m4rm, (mzd_t *, mzd_t const *, mzd_t const *, int))                 \
   X(mzd_t *, mzd_mul, (mzd_t *, mzd_t const *, mzd_t const *, int))                         \
